@@ -50,12 +50,35 @@ REL = "src/rp2/ods_parser.py"
 
 
 def row_loop(pr):
+    """The row loop of parse_ods with its role-carrying locals renamed to canonical names (so that the obligations do not depend on how the
+    code calls them): the first-cell variable, the row counter, the Optional table type, the loop index and row."""
     f = A.func_node(pr.tree, Q)
     if f is None:
         return None, None
     for lp in A.loops_of(f):
-        if ast.unparse(lp.iter) == "enumerate(input_sheet.rows())":
-            return f, lp
+        it = lp.iter
+        if isinstance(it, ast.Call) and A.dotted(it.func) == "enumerate" and it.args and ast.unparse(it.args[0]).endswith(".rows()") and isinstance(lp.target, ast.Tuple) and len(lp.target.elts) == 2:
+            idx, row = (x.id for x in lp.target.elts)
+            m = {idx: "i", row: "row"}
+            for st in lp.body:
+                tg = st.targets[0] if isinstance(st, ast.Assign) and len(st.targets) == 1 else st.target if isinstance(st, ast.AnnAssign) else None
+                if isinstance(tg, ast.Name) and getattr(st, "value", None) is not None:
+                    v = ast.unparse(st.value)
+                    if v == f"{row}[0].value":
+                        m[tg.id] = "cell0_value"
+                    if v == f"[cell.value for cell in {row}]":
+                        m[tg.id] = "row_values"
+                if isinstance(st, ast.AugAssign) and isinstance(st.target, ast.Name) and isinstance(st.op, ast.Add) and ast.unparse(st.value) == "1":
+                    m[st.target.id] = "current_table_row_count"
+            for n in ast.walk(lp):
+                if isinstance(n, ast.Assign) and len(n.targets) == 1 and isinstance(n.targets[0], ast.Name) and isinstance(n.value, ast.Call) and A.dotted(n.value.func) == "_get_entry_set_type":
+                    m[n.targets[0].id] = "current_table_type"
+            if len(set(m.values())) != len(m):
+                return f, None
+            fr = A.renamed(f, m)
+            A._MOD_OF[id(fr)] = A._MOD_OF.get(id(f))
+            lr = next(x for x in A.loops_of(fr) if x.lineno == lp.lineno)
+            return fr, lr
     return f, None
 
 
@@ -69,18 +92,17 @@ def structure(pr):
     out = []
     f, lp = row_loop(pr)
     if lp is None:
-        return [A.bvc(Q, "shape", "row_loop_present", False, REL, "for i, row in enumerate(input_sheet.rows()) not found", open_=True)]
+        return [A.bvc(Q, "shape", "row_loop_present", False, REL, "for <i>, <row> in enumerate(<sheet>.rows()) with its role variables not found", open_=True)]
     t, paths = build_table(lp)
     out.append(A.bvc(Q, "shape", "loop_body_is_within_the_decision_table_fragment", not t.unknown, REL, str(t.unknown), open_=True))
     mod = pr.tree.modules["rp2.ods_parser"]
-    src = ast.unparse(mod.tree)
-    helpers_ok = all(x in src for x in ("def _is_table_begin(cell_value: str) -> bool:\n    return _is_table_in(cell_value) or _is_table_out(cell_value) or _is_table_intra(cell_value)",
-                                        "def _is_table_end(cell_value: str) -> bool:\n    return cell_value == _TABLE_END",
-                                        "def _is_empty(cell_value: str) -> bool:\n    return cell_value is None or cell_value == ''",
-                                        "def _is_table_in(cell_value: str) -> bool:\n    return _get_entry_set_type(cell_value) == EntrySetType.IN",
-                                        "def _get_entry_set_type(cell_value: str) -> Optional[EntrySetType]:\n    return EntrySetType.get_entry_set_type_from_string(cell_value)"))
+    H = lambda name: A.Fn(pr.tree, "rp2.ods_parser." + name)
+    helpers_ok = H("_is_table_begin").has("return _is_table_in(cell_value) or _is_table_out(cell_value) or _is_table_intra(cell_value)") and \
+        H("_is_table_end").has("return cell_value == _TABLE_END") and H("_is_empty").has("return cell_value is None or cell_value == ''") and \
+        H("_is_table_in").has("return _get_entry_set_type(cell_value) == EntrySetType.IN") and H("_is_table_out").has("return _get_entry_set_type(cell_value) == EntrySetType.OUT") and \
+        H("_is_table_intra").has("return _get_entry_set_type(cell_value) == EntrySetType.INTRA") and H("_get_entry_set_type").has("return EntrySetType.get_entry_set_type_from_string(cell_value)")
     te = mod.assigns.get("_TABLE_END")
-    helpers_ok = helpers_ok and isinstance(te, ast.Constant) and te.value == "TABLE END" and "cell0_value: str = row[0].value" in ast.unparse(lp)
+    helpers_ok = helpers_ok and isinstance(te, ast.Constant) and te.value == "TABLE END" and A.has(lp, "cell0_value = row[0].value", mod.tree, scope=A.scope_of(f, mod.tree))
     out.append(A.bvc(Q, "shape", "row_classes_begin_end_empty_are_defined_as_assumed_and_read_from_the_first_cell", helpers_ok, REL, open_=True))
     begin, end, empty = t.atom(BEGIN), t.atom(END), t.atom(EMPTY)
     in_table = z3.Bool("some:current_table_type")
@@ -106,6 +128,8 @@ def structure(pr):
 
     calls = lambda p, name: [e for k, e in p.effects if k == "call" and e.startswith(name + "(")]
     adds = lambda p: calls(p, "_create_and_process_transaction")
+    sc = A.scope_of(f, mod.tree)
+    same = lambda lst, want: len(lst) == 1 and A.expr_eq(want, lst[0], sc)
     quiet = lambda p: not p.raises() and not adds(p)
     # --- the fault classes of the statement
     case("nested_table_keyword_inside_a_table_is_rejected", [in_table, begin], lambda p: p.raises())
@@ -116,7 +140,7 @@ def structure(pr):
     # --- and what valid structure does (C11: no row skipped or read twice)
     ADD = "_create_and_process_transaction(configuration, row_values, current_table_type, i + 1, unfiltered_transaction_sets, artificial_transaction_list)"
     case("data_row_is_processed_exactly_once_with_its_sheet_row_and_table_type", [in_table, other, count > 1],
-         lambda p: z3.And(z3.BoolVal(not p.raises() and adds(p) == [ADD]), p.env["current_table_row_count"] == count + 1, p.env[("some", "current_table_type")] == in_table))
+         lambda p: z3.And(z3.BoolVal(not p.raises() and same(adds(p), ADD)), p.env["current_table_row_count"] == count + 1, p.env[("some", "current_table_type")] == in_table))
     case("header_row_is_not_added", [in_table, other, count == 1],
          lambda p: z3.And(z3.BoolVal(not adds(p)), z3.Implies(z3.BoolVal(not p.raises()), z3.And(p.env["current_table_row_count"] == 2, p.env[("some", "current_table_type")]))))
     case("data_directly_under_the_table_keyword_is_rejected", [in_table, other, count == 1, z3.Not(t.atom("raises:_create_transaction(configuration, current_table_type, i + 1, row_values)"))],
@@ -127,6 +151,7 @@ def structure(pr):
     case("blank_row_between_tables_is_skipped", [z3.Not(in_table), empty], lambda p: z3.And(z3.BoolVal(quiet(p)), z3.Not(p.env[("some", "current_table_type")])))
     # --- after the loop
     after = f.body[f.body.index(lp) + 1:] if lp in f.body else []
+    F = A.Fn(pr.tree, Q)
     t2 = D.Table(opt_vars=["current_table_type"])
     paths2 = t2.run(after, [D.Path([], [], t2.init_env())])
     in2 = z3.Bool("some:current_table_type")
@@ -137,26 +162,22 @@ def structure(pr):
                       REL, 0, note=f"{len(live)} feasible paths"))
         out.append(A.bvc(Q, "cover", label + "_is_reachable", bool(live), REL))
     # --- the sets the rows go to are the ones returned
-    s = ast.unparse(f)
     out.append(A.bvc(Q, "shape", "input_data_is_built_from_the_three_sets_the_rows_were_added_to",
-                     "return InputData(asset, unfiltered_transaction_sets[EntrySetType.IN], unfiltered_transaction_sets[EntrySetType.OUT], unfiltered_transaction_sets[EntrySetType.INTRA], configuration.from_date, configuration.to_date)" in s, REL))
-    out.append(A.bvc(Q, "shape", "missing_sheet_is_rejected", "if asset not in input_file_handle.sheets.names():\n        raise RP2ValueError(" in s, REL))
+                     F.has("return InputData(asset, unfiltered_transaction_sets[EntrySetType.IN], unfiltered_transaction_sets[EntrySetType.OUT], unfiltered_transaction_sets[EntrySetType.INTRA], configuration.from_date, configuration.to_date)"), REL))
+    out.append(A.bvc(Q, "shape", "missing_sheet_is_rejected", F.has("if asset not in input_file_handle.sheets.names():\n    raise RP2ValueError(ANY)"), REL))
     return out
 
 
 def numbers(pr):
     out = []
     q = "rp2.ods_parser._process_constructor_argument_pack"
-    f = A.func_node(pr.tree, q)
-    s = ast.unparse(f) if f else ""
+    F = A.Fn(pr.tree, q)
     out.append(A.bvc(q, "shape", "non_numeric_value_of_a_numeric_field_raises_value_error",
-                     "except (ValueError, RP2Error) as exc:\n                raise RP2ValueError(f\"Argument '{numeric_parameter}' has non-numeric value: {value}\") from exc" in s and
-                     "argument_pack[numeric_parameter] = RP2Decimal(f'{value:.11f}') if value is not None else None" in s, REL))
+                     F.has("try:\n    ...\n    argument_pack[numeric_parameter] = RP2Decimal(f'{value:.11f}') if value is not None else None\nexcept (ValueError, RP2Error) as exc:\n    raise RP2ValueError(ANY) from exc"), REL))
     q2 = "rp2.ods_parser._create_transaction"
-    f2 = A.func_node(pr.tree, q2)
-    s2 = ast.unparse(f2) if f2 else ""
-    ok = all(f"= _process_constructor_argument_pack(configuration, argument_pack, internal_id, '{c}')\n        transaction = {c}(**argument_pack)" in s2
-             for c in ("InTransaction", "OutTransaction", "IntraTransaction")) and not [n for n in ast.walk(f2) if isinstance(n, ast.Try)]
+    F2 = A.Fn(pr.tree, q2)
+    ok = all(F2.has(f"argument_pack = _process_constructor_argument_pack(configuration, argument_pack, internal_id, '{c}')\ntransaction = {c}(**argument_pack)")
+             for c in ("InTransaction", "OutTransaction", "IntraTransaction")) and F2 and not [n for n in ast.walk(F2.node) if isinstance(n, ast.Try)]
     out.append(A.bvc(q2, "shape", "every_row_goes_through_the_validating_constructor_of_its_table_without_a_handler", ok, REL))
     q3 = "rp2.ods_parser._create_and_process_transaction"
     f3 = A.func_node(pr.tree, q3)
@@ -208,30 +229,30 @@ def main_flow(pr):
     out = []
     q = "rp2.rp2_main._rp2_main_internal"
     rel = "src/rp2/rp2_main.py"
-    f = A.func_node(pr.tree, q)
+    F = A.Fn(pr.tree, q)
+    f = F.node
     if f is None:
         return [A.bvc(q, "flow", "function_present", False, rel, open_=True)]
     tries = [n for n in f.body if isinstance(n, ast.Try)]
-    main_try = next((t for t in tries if "parse_ods(" in ast.unparse(t)), None)
+    main_try = next((t for t in tries if any(isinstance(c, ast.Call) and A.dotted(c.func) == "parse_ods" for c in ast.walk(t))), None)
     out.append(A.bvc(q, "flow", "parse_compute_and_generate_run_inside_the_try_whose_handler_exits_1", main_try is not None and len(main_try.handlers) == 1 and
                      ast.unparse(main_try.handlers[0].type) == "Exception" and ast.unparse(main_try.handlers[0].body[-1]) == "sys.exit(1)" and not main_try.orelse and not main_try.finalbody, rel))
-    loop = next((n for n in ast.walk(main_try) if isinstance(n, ast.For) and ast.unparse(n.iter) == "assets"), None) if main_try else None
+    loop = next((n for n in ast.walk(main_try) if isinstance(n, ast.For) and any(isinstance(c, ast.Call) and A.dotted(c.func) == "parse_ods" for c in ast.walk(n))), None) if main_try else None
     bad = [type(n).__name__ for n in ast.walk(loop) if isinstance(n, (ast.Try, ast.Continue, ast.Break, ast.Return))] if loop is not None else ["no loop"]
     out.append(A.bvc(q, "flow", "asset_loop_has_no_handler_continue_or_break", not bad, rel, str(bad)))
-    body = ast.unparse(loop) if loop is not None else ""
+    out.append(A.bvc(q, "flow", "asset_loop_visits_every_requested_asset", loop is not None and F.has("if args.asset:\n    assets = [args.asset]\nelse:\n    assets = list(configuration.assets)\nassets.sort()") and
+                     A.expr_eq("assets", ast.unparse(loop.iter), F.scope), rel))
     out.append(A.bvc(q, "flow", "every_asset_is_parsed_then_computed_then_stored",
-                     0 <= body.find("input_data: InputData = parse_ods(configuration=configuration, asset=asset, input_file_handle=input_file_handle)") <
-                     body.find("computed_data: ComputedData = compute_tax(configuration=configuration, accounting_engine=accounting_engine, input_data=input_data)") <
-                     body.find("asset_to_computed_data[asset] = computed_data"), rel))
+                     loop is not None and A.has(loop, "input_data = parse_ods(configuration=configuration, asset=asset, input_file_handle=input_file_handle)\n...\n"
+                                                      "computed_data = compute_tax(configuration=configuration, accounting_engine=accounting_engine, input_data=input_data)\n...\n"
+                                                      "asset_to_computed_data[asset] = computed_data", F.mod, scope=F.scope), rel))
     stmts = main_try.body if main_try else []
     idx_loop = next((i for i, st in enumerate(stmts) if st is loop), -1)
-    idx_gen = next((i for i, st in enumerate(stmts) if "_find_and_run_report_generators(" in ast.unparse(st)), -1)
+    idx_gen = next((i for i, st in enumerate(stmts) if any(isinstance(c, ast.Call) and A.dotted(c.func) == "_find_and_run_report_generators" for c in ast.walk(st))), -1)
     gens = [n for n in ast.walk(f) if isinstance(n, ast.Call) and A.dotted(n.func) == "_find_and_run_report_generators"]
     out.append(A.bvc(q, "flow", "reports_are_generated_only_after_every_asset_was_parsed_and_computed", 0 <= idx_loop < idx_gen and len(gens) == 1, rel))
-    # no generator call anywhere else
     other = [m.name for m in A.all_modules(pr.tree) for c in A.calls(m) if isinstance(c.func, ast.Attribute) and c.func.attr == "generate" and m.name != "rp2.rp2_main"]
     out.append(A.bvc("tree:generate_calls", "flow", "only_rp2_main_runs_report_generators", not other, "src/rp2", str(other)))
-    # -m vs [accounting_methods]
     chain = next((n for n in ast.walk(main_try) if isinstance(n, ast.If) and ast.unparse(n.test) == "args.method and configuration.years_2_accounting_method_names"), None) if main_try else None
     if chain is None:
         out.append(A.bvc(q, "flow", "method_conflict_check_present", False, rel, open_=True))
@@ -246,12 +267,10 @@ def main_flow(pr):
         live2 = [p for p in paths if D.feasible([z3.Not(z3.And(m, c))] + p.cond)]
         out.append(VC(q, "case", "otherwise_the_run_goes_on", [z3.Not(z3.And(m, c))],
                       z3.And(*[z3.Implies(z3.And(*p.cond), z3.BoolVal(not exits(p))) for p in live2]) if live2 else z3.BoolVal(False), rel, 0))
-    sa = A.func_node(pr.tree, "rp2.rp2_main._setup_argument_parser")
-    s = ast.unparse(sa) if sa else ""
-    out.append(A.bvc("rp2.rp2_main._setup_argument_parser", "shape", "method_option_is_restricted_to_the_countrys_methods", "choices=accounting_methods" in s and
-                     "accounting_methods = _validate_accounting_methods(country)" in s, rel))
-    ms = ast.unparse(f)
-    out.append(A.bvc(q, "flow", "unknown_method_plugin_exits_1", "except ModuleNotFoundError:\n                LOGGER.error('Invalid/unsupported accounting method: %s', accounting_method_name)\n                sys.exit(1)" in ms, rel))
+    SA = A.Fn(pr.tree, "rp2.rp2_main._setup_argument_parser")
+    out.append(A.bvc("rp2.rp2_main._setup_argument_parser", "shape", "method_option_is_restricted_to_the_countrys_methods", SA.expr("choices=accounting_methods") and
+                     SA.has("accounting_methods = _validate_accounting_methods(country)"), rel))
+    out.append(A.bvc(q, "flow", "unknown_method_plugin_exits_1", F.has("try:\n    accounting_method_module = import_module(ANY, package=_ACCOUNTING_METHOD_PACKAGE)\nexcept ModuleNotFoundError:\n    ...\n    sys.exit(1)"), rel))
     return out
 
 
